@@ -64,6 +64,8 @@ def harvest():
         tryit(extra)
     return shapes
 
+CANARIES = {'harness/C12_verify.py': 'stub_canary()'}   # harness file -> native call that must return True, else its stubs are dead
+
 
 def obligations(tier):
     shapes = harvest()
